@@ -77,10 +77,14 @@ def run(run, tier, seed):
             run.replayed += 1
         ncase = 40 if tier == "quick" else 600
         for ci in range(ncase):
-            k = gen.ALLK[ci % 30] if ci % 4 else 17
-            ns = rng.randint(2, 10)
+            k = (gen.ALLK[ci % 30] if ci % 4 else 17) if ci >= 6 else [17, 21, 31, 15, 41, 9][ci]
+            ns = rng.randint(2, 10) if ci >= 6 else [9, 10, 8, 2, 10, 9][ci]
             length = rng.randint(max(200, 4 * k), 600) if k > 7 else rng.randint(3 * k, 40 if k == 5 else 90)
             sc = derive.snp_scenario(rng, k, ns, length, rng.randint(1, 8 if k > 7 else 2))
+            for _ in range(20):          # the first cases (9/10 samples) are wanted under the strict precondition
+                if ci >= 6 or (sc is not None and sc["pre_strict"]):
+                    break
+                sc = derive.snp_scenario(rng, k, ns, length, rng.randint(1, 6))
             if sc is None:
                 continue
             sb.reset()
